@@ -62,19 +62,32 @@ def ops_lt(n=4):
 RSET = [[], [("u", 0, 2)], [("u", 0, 1), ("u", 2, 3)], [("u", 0, 2), ("u", 1, 2)]]
 ROPS = [("u", 2, 3), ("u", 3, 2), ("u", 0, 3), ("u", 1, 3), ("s", 2, 3), ("s", 0, 3), ("f", 0, 0), ("f", 3, 3)]
 
+CORE = [(("u", 2, 3), ("u", 2, 3)), (("u", 2, 3), ("u", 3, 2)), (("u", 0, 3), ("u", 2, 3)), (("u", 2, 3), ("s", 2, 3)), (("u", 2, 3), ("f", 3, 3))]
+
 def dfs_jobs(tier):
+    """bounded DFS by the driver itself (independent of UnionFindImpl): D<preemption bound>:<max executions>.
+    quick:    4 set-ups x all unordered pairs of 8 selected ops, <= 2 preemptions; 4 set-ups x 5 core pairs exhaustively (cap 40000)
+    thorough: 22 canonical set-ups x all unordered pairs of the 16 ops (a<b), <= 2 preemptions; 4 set-ups x 36 pairs exhaustively
+              (cap 150000); 4 set-ups x multisets of 3 of the 8 selected ops on 3 threads, <= 1 preemption; two-operation programs"""
     jobs = []
     if tier == "quick":
         for s in RSET:
             for o1, o2 in itertools.combinations_with_replacement(ROPS, 2):
-                jobs.append(job_line(s, [[o1], [o2]], "D2:600"))
+                jobs.append(job_line(s, [[o1], [o2]], "D2:3000"))
+            for o1, o2 in CORE:
+                jobs.append(job_line(s, [[o1], [o2]], "D99:40000"))
     else:
         for s in canonical_setups():
             for o1, o2 in itertools.combinations_with_replacement(ops_lt(), 2):
-                jobs.append(job_line(s, [[o1], [o2]], "D2:800"))
+                jobs.append(job_line(s, [[o1], [o2]], "D2:3000"))
         for s in RSET:
+            for o1, o2 in itertools.combinations_with_replacement(ROPS, 2):
+                jobs.append(job_line(s, [[o1], [o2]], "D99:150000"))
             for o in itertools.combinations_with_replacement(ROPS, 3):
-                jobs.append(job_line(s, [[x] for x in o], "D1:600"))
+                jobs.append(job_line(s, [[x] for x in o], "D1:3000"))
+            for o1, o2 in CORE:
+                for obs in ([("f", 2, 2)], [("s", 2, 3)], [("f", 3, 3)]):
+                    jobs.append(job_line(s, [[o1] + obs, [o2] + obs], "D2:20000"))
     return jobs
 
 def random_jobs(rng, count):
@@ -128,6 +141,9 @@ def _run_slice(drv, jobs, base):
                 last = start + int(line[2:])
                 cur = {"job": base + last, "line": jobs[last], "S": [], "V": [], "X": None, "err": None, "livelock": False, "crash": None}
                 execs.append(cur)
+            elif line.startswith("D "):
+                f = line.split(" ")
+                execs.append({"job": base + start + int(f[1]), "dfs_total": int(f[2]), "dfs_distinct": int(f[3])})
             elif cur is None or not line:
                 continue
             elif line.startswith("S "):
@@ -160,7 +176,10 @@ def run_driver(drv, jobs, procs=None):
     slices = [(jobs[i:i + size], i) for i in range(0, len(jobs), size)]
     with cf.ThreadPoolExecutor(max_workers=procs) as ex:
         parts = list(ex.map(lambda s: _run_slice(drv, s[0], s[1]), slices))
-    return [e for p in parts for e in p]
+    out = [e for p in parts for e in p]
+    run_driver.dfs_total += sum(e["dfs_total"] for e in out if "dfs_total" in e)
+    return [e for e in out if "dfs_total" not in e]
+run_driver.dfs_total = 0
 
 def explicit(e):
     """the execution as a deterministic replay job (explicit schedule)"""
@@ -194,9 +213,11 @@ def model_check(wd, fam, sfx, heap, workers, coverage, timeout):
 
 def run_S(res, wd, tier):
     """returns {variant: {"ok": [...], "violated": [(fam, what, conf, sched, states)]}}"""
-    fams = [("known", True, False), ("knownobs", False, True), ("dupq4", True, False), ("pairslt3", True, False)]
-    if tier == "thorough":
-        fams += [("pairslt4", False, False), ("dup4", False, False), ("pairs4", False, False), ("twoone3", False, False), ("three3", False, False),
+    fams = [("knownobs", False, True), ("dupq4", True, False), ("pairslt3", True, False)]
+    if os.environ.get("VERIF_C29_SKIP_S"):      # developer switch for mutation experiments: S does not depend on /repo
+        fams = []
+    if tier == "thorough" and fams:
+        fams += [("known", False, False), ("pairslt4", False, False), ("dup4", False, False), ("pairs4", False, False), ("twoone3", False, False), ("three3", False, False),
                  ("threer4", False, False), ("twotwo3", False, False)]
     out = {v: {"ok": [], "violated": [], "states": 0} for v, _ in VARIANTS}
     tasks = [(fam, v, sfx, cov) for fam, cov, live in fams for v, sfx in VARIANTS]
@@ -239,6 +260,20 @@ def run_abs(res, wd):
         res.infra_errors.append("UnionFindAbs does not satisfy its own theorems: %s" % (r["violated"] or r["error"]))
 
 # ------------------------------------------------------------------------------------------------ R: replay
+NEEDED = ("block", "pc", "ip", "res")
+def light_state(g, nid, conf=False, cache={}):
+    """parse only the variables the comparison needs from a state label of the dumped graph"""
+    key = (id(g), nid, conf)
+    if key not in cache:
+        lab = g.labels[nid].replace("\\n", "\n").replace('\\"', '"').replace("\\\\", "\\")
+        out = {}
+        for part in re.split(r"(?:^|\n)/\\ ", lab):
+            name, _, val = part.strip().partition(" = ")
+            if name in NEEDED or (conf and name == "conf"):
+                out[name] = tlaval.parse(val)
+        cache[key] = out
+    return cache[key]
+
 def same_state(st, line, nspec):
     """spec state vs driver line  S k t par rk pts ips res"""
     f = line.split(" ")
@@ -257,6 +292,9 @@ def same_state(st, line, nspec):
 def dump_graph(wd, cfgfam, sfx):
     d = os.path.join(wd, "R_%s_%s" % (cfgfam, sfx)); os.makedirs(d, exist_ok=True)
     dot = os.path.join(d, "graph.dot")
+    cache = os.environ.get("VERIF_C29_GRAPH_CACHE")     # developer switch (mutation experiments): the graphs depend on the spec only
+    if cache and os.path.exists(os.path.join(cache, "%s_%s.dot" % (cfgfam, sfx))):
+        return graphwalk.Graph(os.path.join(cache, "%s_%s.dot" % (cfgfam, sfx))), {"ok": True}
     r = tlc.run_tlc(os.path.join(SPEC, "MC_UnionFind_%s.tla" % cfgfam), os.path.join(SPEC, "MC_UnionFind_%s_%s.cfg" % (cfgfam, sfx)),
                     d, timeout=1500, workers=max(2, NCPU // 2), heap="12g", extra=["-dump", "dot,actionlabels", dot])
     if not r["ok"]:
@@ -273,12 +311,12 @@ def replay_variant(res, wd, drv, fam, v, sfx, max_walks, dumped):
     walks = g.covering_walks()
     if max_walks and len(walks) > max_walks:
         walks = random.Random(seed() * 7 + len(v)).sample(walks, max_walks)
-    jobs = [conf_job(g.state(init)["conf"], ",".join(g.edges[i][3] for i in w), verbose=True) for init, w in walks]
+    jobs = [conf_job(light_state(g, init, True)["conf"], ",".join(g.edges[i][3] for i in w), verbose=True) for init, w in walks]
     tick("R %s: %d walks" % (v, len(jobs)))
     execs = run_driver(drv, jobs)
     tick("R %s: driver done" % v)
     drift = 0; steps = 0; first = []
-    nspec = len(g.state(walks[0][0])["block"]) if walks else 0
+    nspec = len(light_state(g, walks[0][0])["block"]) if walks else 0
     for e in execs:
         init, w = walks[e["job"]]
         states = [init] + [g.edges[i][1] for i in w]
@@ -291,8 +329,8 @@ def replay_variant(res, wd, drv, fam, v, sfx, max_walks, dumped):
             if k >= len(e["S"]):
                 bad = "step %d: %s" % (k, e["err"] or "no such step on the real object"); break
             steps += 1
-            if not same_state(g.state(sid), e["S"][k], nspec):
-                s = g.state(sid)
+            if not same_state(light_state(g, sid), e["S"][k], nspec):
+                s = light_state(g, sid)
                 bad = "step %d: real object `%s` vs spec block=%s pc=%s ip=%s res=%s" % (k, e["S"][k], s["block"], s["pc"], s["ip"], s["res"])
         if bad:
             drift += 1
@@ -302,7 +340,7 @@ def replay_variant(res, wd, drv, fam, v, sfx, max_walks, dumped):
     return execs, drift, len(walks), steps, first
 
 # ------------------------------------------------------------------------------------------------ T: trace validation
-def validate_histories(res, wd, execs, batch_events=12000, cap=None):
+def validate_histories(res, wd, execs, batch_events=40000, cap=None):
     """TLC judges every distinct history; returns {exec index: rejection record}"""
     uniq = {}
     for i, e in enumerate(execs):
@@ -434,7 +472,7 @@ def run(tier, replay_path=None):
     if os.path.exists(rep):
         extra += [(l.strip(), "finding") for l in open(rep) if l.strip() and not l.startswith("#")]
     rng = random.Random(seed() * 1000003 + 29)
-    extra += [(j, "random") for j in random_jobs(rng, 20000 if quick else 400000)]
+    extra += [(j, "random") for j in random_jobs(rng, 10000 if quick else 400000)]
     extra += [(j, "dfs") for j in dfs_jobs(tier)]
     fut_extra = pool.submit(run_driver, drv, [j for j, _ in extra])
     # R: which variant does the real object follow?
@@ -462,12 +500,13 @@ def run(tier, replay_path=None):
     else:
         res.infra_errors.append("the replay space does not discriminate the two variants of UnionFindImpl")
     ex2 = fut_extra.result()
-    tick("driver done: %d random / DFS executions" % len(ex2))
+    tick("driver done: %d random executions + distinct histories of %d DFS schedules" % (len(ex2), run_driver.dfs_total))
     for e in ex2:
         e["src"] = extra[e["job"]][1]
     all_execs += ex2
     res.count("random_schedules", sum(1 for e in ex2 if e["src"] == "random"))
-    res.count("dfs_schedules", sum(1 for e in ex2 if e["src"] == "dfs"))
+    res.count("dfs_schedules_explored", run_driver.dfs_total)
+    res.count("dfs_distinct_histories", sum(1 for e in ex2 if e["src"] == "dfs"))
     # S results; counterexamples of either variant become schedules for the real object
     S = fut_S.result(); fut_abs.result(); pool.shutdown()
     tick("S done")
@@ -486,7 +525,7 @@ def run(tier, replay_path=None):
     res.cov["spec_results"] = {v: {"families_clean": [f[0] for f in S[v]["ok"]], "violated": [(f[0], f[1]) for f in S[v]["violated"]],
                                    "distinct_states": S[v]["states"]} for v, _ in VARIANTS}
     # T: the verdict
-    nk, nv, rejected = judge(res, wd, drv, all_execs, kf, "t", cap=8000 if quick else 150000)
+    nk, nv, rejected = judge(res, wd, drv, all_execs, kf, "t", cap=5000 if quick else 150000)
     tick("T done: %d executions, %d known-finding hits, %d violations" % (len(all_execs), nk, nv))
     # a counterexample of the variant the code follows must be reproduced by the code (else the spec misrepresents it)
     base = len(all_execs) - len(ex3)
